@@ -2,6 +2,7 @@ import FlVerif.Drv.Leaf
 import FlVerif.Drv.State
 import FlVerif.Drv.Fld
 import FlVerif.Drv.Engine
+import FlVerif.Drv.Term
 
 /-! Registry of driver command groups: one handler per group, tried in order (`none` = not mine / malformed). -/
 
@@ -11,5 +12,6 @@ def handlers : List (List SExp → Option SExp) :=
   , state
   , fld
   , engine
+  , term
   ]
 end Drv
